@@ -1163,6 +1163,9 @@ def check_C08(ck):
             for k in ([0, 1, 63, 64, 65, 127, 128, 64 * nl - 1, 64 * nl, 64 * nl + 1, 400] if not thorough else list(range(0, 401, 1))):
                 cases.append(("repr%d/shr" % nl, "repr %d shr %x %x" % (nl, a, k))); exp.append("%x" % (a >> k))
                 cases.append(("repr%d/shl" % nl, "repr %d shl %x %x" % (nl, a, k))); exp.append("%x" % ((a << k) % W))
+            for ch in (1, 3, 7, 8, 8 * nl - 1, 8 * nl, 8 * nl + 1, 12 * nl, 1000):
+                b2 = a.to_bytes(8 * nl, "big") + ((a * 7 + 1) % W).to_bytes(8 * nl, "big") + bytes([0xee] * 5)
+                cases.append(("repr%d/read_be-twice-short-reads" % nl, "repr %d read_be2 %s %x" % (nl, b2.hex(), ch))); exp.append("%x %x %d" % (a, (a * 7 + 1) % W, 16 * nl))
             cases.append(("repr%d/div2" % nl, "repr %d div2 %x" % (nl, a))); exp.append("%x" % (a >> 1))
             cases.append(("repr%d/mul2" % nl, "repr %d mul2 %x" % (nl, a))); exp.append("%x" % ((a << 1) % W))
             cases.append(("repr%d/num_bits" % nl, "repr %d num_bits %x" % (nl, a))); exp.append(str(a.bit_length()))
@@ -1731,6 +1734,34 @@ def _compose_map(ck, g, tag, us_list, klass):
     return out, sw, imgs
 
 
+def sswu_preimages_of_x(g, tag, x):
+    """all u with x(sswu(u)) = x: invert x0(t) = (-B/A)(1 + 1/(t^2+t)) and x1(t) = t x0(t), t = Z u^2"""
+    K = g.K
+    Z = K.from_int(O.SSWU_Z1) if tag == "g1" else O.SSWU_Z2
+    A_, B_ = g.CP.a, g.CP.b
+    sq = (lambda v: K.sqrt(v)) if K is F2 else (lambda v: O.fsqrt(v))
+    d = K.neg(K.mul(K.mul(A_, x), K.inv(B_)))                     # d = -A x / B
+    ts = []
+    c = K.sub(d, K.one)                                          # x0: 1/(t^2+t) = c
+    if not K.is_zero(c):
+        ci = K.inv(c)
+        sd = sq(K.add(K.one, K.mul(K.from_int(4), ci)))
+        if sd is not None:
+            ts += [K.mul(K.add(K.neg(K.one), s_), K.inv(K.from_int(2))) for s_ in (sd, K.neg(sd))]
+    e1 = K.sub(K.one, d)                                         # x1: t^2 + (1-d) t + (1-d) = 0
+    sd = sq(K.sub(K.mul(e1, e1), K.mul(K.from_int(4), e1)))
+    if sd is not None:
+        ts += [K.mul(K.add(K.neg(e1), s_), K.inv(K.from_int(2))) for s_ in (sd, K.neg(sd))]
+    out = []
+    for t_ in ts:
+        u_ = sq(K.mul(t_, K.inv(Z)))
+        if u_ is not None:
+            for cand in (u_, K.neg(u_)):
+                if g.sswu(cand)[0] == x and cand not in out:
+                    out.append(cand)
+    return out
+
+
 def sswu_inputs_with_denominator(g, tag, z0s):
     """inputs u of the SSWU map whose Jacobian denominator -A'(Z^2 u^4 + Z u^2) equals a prescribed value z0
     (solve the quadratic Z^2 t^2 + Z t + z0/A' = 0 in t = u^2, then take square roots); both signs of u"""
@@ -1795,6 +1826,18 @@ def check_C14(ck):
         # (a fast path of a later stage keyed on Z or Z^2 shows here)
         zden = sswu_inputs_with_denominator(g, tag, (K.one, K.neg(K.one), K.from_int(2), K.neg(K.from_int(2)), K.from_int(1 << 64), K.from_int(4)) + ((((0, 1)), ((0, Q - 1))) if K is F2 else ()))
         us += zden
+        # inputs whose SSWU image is a finite RATIONAL KERNEL point of the isogeny (G1: the roots of XDEN are rational)
+        kin = []
+        try:
+            consts = O.gen_constants()
+            xden = consts["ISO11_XDEN" if tag == "g1" else "ISO3_XDEN"] if isinstance(consts, dict) else None
+        except Exception:
+            xden = None
+        if xden is not None:
+            for xr in O.poly_roots(K, list(xden), rng)[:5]:
+                kin += sswu_preimages_of_x(g, tag, xr)[:2]
+        us += kin
+        ck.classes["constructed:sswu-image-in-isogeny-kernel/%s" % tag] = len(kin)
         singles = [[u] for u in us]
         pairs = map_input_pairs(g, tag, us[:6], rng)
         pairs += [("special-sswu-denominator", [u_, K.rand(rng)]) for u_ in zden[:6]] + [("special-sswu-denominator", [K.rand(rng), u_]) for u_ in zden[:4]]
@@ -2035,6 +2078,27 @@ def check_C16(ck):
         Pc = CP.lift_x(xc)
         if Pc is not None:
             pts += [Pc, CP.neg(Pc)]
+        # points whose abscissa is a root of a LEADING-COEFFICIENT PREFIX of one of the four polynomials (the Horner
+        # accumulator is exactly zero part-way through the evaluation)
+        try:
+            consts = O.gen_constants()
+            pre_pts = g._cache.get("horner-prefix-roots")
+            if pre_pts is None:
+                pre_pts = []
+                import random as _rnd
+                r0 = _rnd.Random(7)
+                for nm in ("XNUM", "XDEN", "YNUM", "YDEN"):
+                    cs = list(consts[("ISO11_" if tag == "g1" else "ISO3_") + nm])
+                    for k_ in range(1, len(cs) - 1):
+                        for xr in O.poly_roots(K, cs[len(cs) - 1 - k_:], r0)[:2]:
+                            Pr = CP.lift_x(xr)
+                            if Pr is not None:
+                                pre_pts.append(Pr)
+                g._cache["horner-prefix-roots"] = pre_pts
+            pts += pre_pts if thorough else pre_pts[::max(1, len(pre_pts) // 8)]
+            ck.classes["constructed:horner-prefix-root-points/%s" % tag] = len(pre_pts)
+        except Exception as e_:
+            ck.notes.append("horner prefix roots not constructed: %s" % e_)
         cases = []
         for P in pts:
             cases.append(("iso/z1", "%s iso %s" % (tag, g.J(P))))
@@ -2142,9 +2206,15 @@ def check_C17(ck):
         for (cl, P) in pts:
             for rep in range(2):
                 cases.append(("clearh/" + cl, "%s clearh %s" % (tag, g.J(P, g.lam(rng) if rep else None)))); exp.append(C.mul(P, g.heff))
+        for (cl, P) in pts[1:4] + pts[-3:-1]:
+            for (rc, lam_) in rep_lams(g, rng):
+                if lam_ is not None:
+                    cases.append(("clearh/%s/rep:%s" % (cl, rc), "%s clearh %s" % (tag, g.J(P, lam_)))); exp.append(C.mul(P, g.heff))
         if tag == "g1":
             for (cl, P) in pts[:6]:
                 cases.append(("chain_z/" + cl, "chain z g1 %s" % g.J(P, g.lam(rng)))); exp.append(C.mul(P, 0xd201000000010000))
+            for (rc, lam_) in rep_lams(g, rng):
+                cases.append(("chain_z/rep:" + rc, "chain z g1 %s" % g.J(pts[2][1], lam_))); exp.append(C.mul(pts[2][1], 0xd201000000010000))
         res = ck.run(cases)
         for c, (impl, _), want in zip(cases, res, exp):
             ck.expect(impl == g.A(want), "heff:" + c[0].split("/")[0], c[1], impl, g.A(want), "[h_eff]P on the whole curve")
